@@ -117,6 +117,10 @@ def gen_literals(rng, tier):
     # property, so no literal with X is compiled - a maintainer may align the two either way)
     for n in list(range(1, 33)):
         out.append(("kmer", "".join(rng.choice(dna) for _ in range(n))))
+    for n in (1, 2, 31, 32):
+        out.append(("kmer64", "".join(rng.choice(dna) for _ in range(n))))
+    for n in (1, 31, 32, 33, 40, 63, 64):
+        out.append(("kmer128", "".join(rng.choice("CGT") for _ in range(n))))
     if tier == "thorough":
         for _ in range(300):
             out.append(("dna", "".join(rng.choice(dna) for _ in range(rng.randint(0, 300)))))
@@ -132,10 +136,13 @@ def literal_program(lits):
         elif m == "iupac":
             body.append('    lit::<Iupac>(%d, iupac!("%s"), "%s");' % (i, t, t))
         else:
-            body.append('    {{ let k = kmer!("{t}"); let s: Seq<Dna> = "{t}".try_into().unwrap(); '
-                        'let kk: Kmer<Dna, {n}> = Kmer::try_from(s.as_ref()).unwrap(); '
-                        'println!("K {i} {n} {{}} {{}} {{}} {{}}", k.bs, (k == kk) as u8, (feed(&k) == feed(s.as_ref())) as u8, '
-                        '(k.to_string() == "{t}") as u8); }}'.format(t=t, n=len(t), i=i))
+            st = {"kmer": "", "kmer64": ", u64", "kmer128": ", u128"}[m]
+            ty = {"kmer": "usize", "kmer64": "u64", "kmer128": "u128"}[m]
+            body.append('    {{ let k = kmer!("{t}"{st}); let s: Seq<Dna> = "{t}".try_into().unwrap(); '
+                        'let kk: Kmer<Dna, {n}, {ty}> = Kmer::try_from(s.as_ref()).unwrap(); '
+                        'println!("K {i} {n} {{}} {{}} {{}} {{}} {{}}", (k.bs as u128) & 0xFFFF_FFFF_FFFF_FFFF, (k.bs as u128) >> 64, '
+                        '(k == kk) as u8, (feed(&k) == feed(s.as_ref())) as u8, '
+                        '(k.to_string() == "{t}") as u8); }}'.format(t=t, n=len(t), i=i, st=st, ty=ty))
     body.append("}")
     return "\n".join(body) + "\n"
 
